@@ -72,6 +72,9 @@ pub trait Api1 {
 	async fn raw_kw(&self, r#type: String, r#ref: Option<u64>) -> RpcResult<Vec<Value>>;
 	#[method(name = "raw_pos")]
 	fn raw_pos(&self, r#type: u64, r#fn: Option<String>) -> RpcResult<Vec<Value>>;
+	// a method that answers with an error object built from its arguments: the client must receive exactly it
+	#[method(name = "fail_with")]
+	async fn fail_with(&self, code: i32, msg: String, data: Option<P>) -> RpcResult<Vec<Value>>;
 	// optional tails spelled with every path `Option` can be named by
 	#[method(name = "opt_paths")]
 	async fn opt_paths(&self, a: u64, b: core::option::Option<u64>, c: std::option::Option<String>, d: ::core::option::Option<bool>) -> RpcResult<Vec<Value>>;
@@ -158,6 +161,11 @@ impl Api1Server for Impl {
 		let args = vec![js(&r#type), jo(&r#ref)];
 		self.0.lock().unwrap().push(("raw_kw".into(), args.clone()));
 		Ok(ret(&args))
+	}
+	async fn fail_with(&self, code: i32, msg: String, data: Option<P>) -> RpcResult<Vec<Value>> {
+		let args = vec![js(&code), js(&msg), jo(&data)];
+		self.0.lock().unwrap().push(("fail_with".into(), args.clone()));
+		Err(jsonrpsee::types::ErrorObjectOwned::owned(code, msg, data))
 	}
 	async fn opt_paths(&self, a: u64, b: Option<u64>, c: Option<String>, d: Option<bool>) -> RpcResult<Vec<Value>> {
 		let args = vec![js(&a), jo(&b), jo(&c), jo(&d)];
@@ -279,6 +287,7 @@ fn methods() -> Vec<MD> {
 		MD { key: "subm", rpc_name: "ns.subm", aliases: &[], map: true, params: vec![pd("first", false, 2), pd("second_arg", true, 1)] },
 		MD { key: "raw_kw", rpc_name: "ns.raw_kw", aliases: &[], map: true, params: vec![pd(RAW_TYPE, false, 2), pd(RAW_REF, true, 1)] },
 		MD { key: "raw_pos", rpc_name: "ns.raw_pos", aliases: &[], map: false, params: vec![pd(RAW_TYPE, false, 1), pd("r#fn", true, 2)] },
+		MD { key: "fail_with", rpc_name: "ns.fail_with", aliases: &[], map: false, params: vec![pd("code", false, 7), pd("msg", false, 2), pd("data", true, 6)] },
 		MD { key: "opt_paths", rpc_name: "ns.opt_paths", aliases: &[], map: false, params: vec![pd("a", false, 1), pd("b", true, 1), pd("c", true, 2), pd("d", true, 3)] },
 		MD { key: "opt_paths_named", rpc_name: "ns.opt_paths_named", aliases: &[], map: true, params: vec![pd("a", false, 1), pd("b", true, 1), pd("c", true, 2)] },
 		MD { key: "suba", rpc_name: "ns.suba", aliases: &["ns.suba_alias", "bare_suba"], map: false, params: vec![pd("a", false, 1)] },
@@ -328,6 +337,7 @@ fn gen_arg(rng: &mut Rng, ty: u8) -> String {
 		3 => (*rng.pick(&["true", "false"])).to_string(),
 		4 => serde_json::to_string(&(0..rng.below(4)).map(|_| rng.next() as u32).collect::<Vec<u32>>()).unwrap(),
 		5 => serde_json::to_string(&match rng.below(5) { 0 => i64::MIN, 1 => i64::MAX, 2 => -1, _ => rng.next() as i64 }).unwrap(),
+		7 => serde_json::to_string(&match rng.below(9) { 0 => i32::MIN, 1 => i32::MAX, 2 => -1, 3 => 0, 4 => -32700, 5 => -32602, 6 => -32000, 7 => 1, _ => rng.next() as i32 }).unwrap(),
 		_ => serde_json::to_string(&P { a: rng.next() as i64, b: gen_str_content(rng) }).unwrap(),
 	}
 }
@@ -471,6 +481,11 @@ async fn run(lines: Vec<String>, out: &mut Out) {
 						Err(e) => Err(e.to_string()),
 					},
 					"raw_kw" => Api1Client::raw_kw(&client, a!(0, String), o!(1, u64)).await.map_err(|e| e.to_string()),
+					"fail_with" => match Api1Client::fail_with(&client, a!(0, i32), a!(1, String), o!(2, P)).await {
+						Ok(_) => Err("fail_with returned Ok".to_string()),
+						Err(jsonrpsee::core::client::Error::Call(e)) => Err(format!("CALL:{}:{}:{}", e.code(), hexs(e.message()), e.data().map(|d| hexs(d.get())).unwrap_or("none".into()))),
+						Err(e) => Err(e.to_string()),
+					},
 					"opt_paths" => Api1Client::opt_paths(&client, a!(0, u64), o!(1, u64), o!(2, String), o!(3, bool)).await.map_err(|e| e.to_string()),
 					"opt_paths_named" => Api1Client::opt_paths_named(&client, a!(0, u64), o!(1, u64), o!(2, String)).await.map_err(|e| e.to_string()),
 					"raw_pos" => Api1Client::raw_pos(&client, a!(0, u64), o!(1, String)).await.map_err(|e| e.to_string()),
@@ -495,6 +510,7 @@ async fn run(lines: Vec<String>, out: &mut Out) {
 				};
 				let ret_repr = match &res {
 					Ok(v) => hexs(&serde_json::to_string(v).unwrap()),
+					Err(e) if e.starts_with("CALL:") => e.clone(),
 					Err(e) => format!("ERR:{}", hexs(e)),
 				};
 				let o = format!("p={} r={} ret={}", p.as_ref().map(|s| hexs(s)).unwrap_or("none".into()), r_repr, ret_repr);
@@ -518,6 +534,15 @@ async fn run(lines: Vec<String>, out: &mut Out) {
 						Ok(v) => {
 							if *v != ret(got) {
 								return Err("client received a value different from what the server returned".into());
+							}
+						}
+						Err(e) if md.key == "fail_with" => {
+							// the client must receive exactly the error object the server method returned
+							let code: i32 = serde_json::from_str(args[0].as_ref().unwrap()).unwrap();
+							let msg: String = serde_json::from_str(args[1].as_ref().unwrap()).unwrap();
+							let want = format!("CALL:{code}:{}:{}", hexs(&msg), args[2].as_ref().map(|d| hexs(d)).unwrap_or("none".into()));
+							if *e != want {
+								return Err(format!("client received `{e}`, the server method returned `{want}`"));
 							}
 						}
 						Err(e) => return Err(format!("client call failed: {e}")),
@@ -548,7 +573,7 @@ async fn run(lines: Vec<String>, out: &mut Out) {
 				let (o, orc) = match (&res, &recv) {
 					(Ok((resp, _)), Some((k, a))) if *k == md.key => {
 						let is_err = resp.get().contains("\"error\"");
-						if is_err && !md.key.starts_with("sub") {
+						if is_err && !md.key.starts_with("sub") && md.key != "fail_with" {
 							(format!("r={}", args_repr(a)), Err(format!("method ran but answered an error: {}", resp.get())))
 						} else {
 							(format!("r={}", args_repr(a)), Ok(()))
